@@ -197,8 +197,12 @@ def sorter(ctx, want_order=True, want_topn=True):
                     emitted = [e[1] for e in d.events if e[0] == 'emit']
                     completes = sum(1 for e in d.events if e == ('next.complete',))
                     last_is_complete = bool(d.events) and d.events[-1] == ('next.complete',)
-                    arr = {n: int(n[3:]) for n in keyed}
+                    arr = {f'row{i}': i for i in range(k)}
                     rk = lambda n: z3.Int('rank:key:' + n)
+                    if not set(emitted) <= set(keyed):
+                        extra = [x for x in emitted if x not in keyed]
+                        c = Candidate(fam.name, 'keyless-row-emitted', f'SortProcess k={k} {DIRS[direction]} capacity={cap}: rows without a sort key are forwarded: {extra}', {'k': k, 'direction': DIRS[direction], 'capacity': cap, 'ranks': {n: 1 for n in keyed}, 'rows': [f'row{i}' for i in range(k)], 'emitted_by_model': emitted}, unmodelled=(d.havoc or [None])[0])
+                        fam.candidates.append(c); cands.append(c); continue
                     def before(a, b):
                         if asc: return z3.Or(rk(a) < rk(b), z3.And(rk(a) == rk(b), z3.BoolVal(arr[a] < arr[b])))
                         return z3.Or(rk(a) > rk(b), z3.And(rk(a) == rk(b), z3.BoolVal(arr[a] < arr[b])))
